@@ -114,7 +114,7 @@ func main() {
 	for _, p := range pl.progs {
 		if !g.accepted[p.ID] {
 			rejected++
-			out := g.cffOut[g.pkgOf[p.ID]]
+			out := g.outOf(p.ID)
 			scj, _ := json.Marshal(p)
 			rep.Report(&mc.Replay{Property: "C14", Engine: "genmc", Key: progKey(p), Scenario: scj,
 				Message: fmt.Sprintf("cff rejected (or crashed on) a well-formed program: %s", firstLines(grepFile(out.stderr, filepath.Base(g.srcFile[p.ID])), 3))})
